@@ -290,9 +290,8 @@ fn c04_pair<A: Elem, B: Elem>(ctx: &mut Ctx, max_len: usize) {
                                     if n == bad {
                                         unsafe { AnyValueRaw::new(pb, size_of::<B>(), TypeId::of::<B>()) }
                                     } else {
-                                        let r = unsafe { AnyValueRaw::new(s.ptr(), size_of::<A>(), TypeId::of::<A>()) };
                                         s.consumed();
-                                        r
+                                        unsafe { AnyValueRaw::new(s.ptr(), size_of::<A>(), TypeId::of::<A>()) }
                                     }
                                 });
                                 let items: Vec<AnyValueRaw> = it.collect();
